@@ -1430,7 +1430,20 @@ class CodeGenerator(NodeVisitor):
         self.writeline("caller = ")
         self.macro_def(macro_ref, call_frame)
         self.start_write(frame, node)
+
+        # The callee is usually a macro, which returns Markup when
+        # autoescaping is on, but it can be any callable. Its result is
+        # output, so it must be escaped like any other value. Markup
+        # results pass through escape unchanged.
+        if frame.eval_ctx.volatile:
+            self.write("(escape if context.eval_ctx.autoescape else identity)(")
+        elif frame.eval_ctx.autoescape:
+            self.write("escape(")
+        else:
+            self.write("(")
+
         self.visit_Call(node.call, frame, forward_caller=True)
+        self.write(")")
         self.end_write(frame)
 
     def visit_FilterBlock(self, node: nodes.FilterBlock, frame: Frame) -> None:
